@@ -72,6 +72,18 @@ def array_programs(seed, n, syms=gen.SYMS, tids=None):
             steps.append({"op": op, "in": ["x", "y"], "out": [f"b_{op}"], "args": {}})
             steps.append({"op": op, "in": ["y", "x"], "out": [f"b_{op}_r"], "args": {}})
         steps.append({"op": "add", "in": ["x", "x"], "out": ["xx"], "args": {}})
+        # repeated in-place accumulation of an operand with other stored sectors = the out-of-place sums
+        steps.append({"op": "copy", "in": ["x"], "out": ["acc"], "args": {}})
+        steps.append({"op": "add", "in": ["x", "y"], "out": ["s1"], "args": {}})
+        steps.append({"op": "add", "in": ["s1", "y"], "out": ["s2"], "args": {}})
+        steps.append({"op": "add", "in": ["s2", "y"], "out": ["s3"], "args": {}})
+        for _k in range(3):
+            steps.append({"op": "iadd", "in": ["acc", "y"], "out": ["acc"], "args": {}})
+        steps.append(rel("same", "C08.inplace_accumulation", "acc", "s3"))
+        steps.append({"op": "copy", "in": ["s1"], "out": ["acc2"], "args": {}})
+        steps.append({"op": "isub", "in": ["acc2", "s1"], "out": ["acc2"], "args": {}})
+        steps.append({"op": "add", "in": ["x", "y"], "out": ["s1again"], "args": {}})
+        steps.append(rel("same", "C08.operands_reusable", "s1", "s1again"))
         three(steps, "sum", ["x"], {}, "su")
         three(steps, "norm_sq", ["x"], {}, "nn")
         three(steps, "abs", ["x"], {}, "ab")
@@ -166,5 +178,10 @@ def vector_programs(seed, n, syms=gen.SYMS, tids=None):
         steps.append({"op": "copy", "in": ["v"], "out": ["vc"], "args": {}})
         steps.append({"op": "iadd", "in": ["vc", "w"], "out": ["vc"], "args": {}})
         steps.append(rel("same", "C08.vector.iadd_equals_add", "vc", "b_add"))
+        steps.append({"op": "add", "in": ["b_add", "w"], "out": ["b_add2"], "args": {}})
+        steps.append({"op": "iadd", "in": ["vc", "w"], "out": ["vc"], "args": {}})
+        steps.append(rel("same", "C08.vector.inplace_accumulation", "vc", "b_add2"))
+        steps.append({"op": "add", "in": ["v", "w"], "out": ["b_add_again"], "args": {}})
+        steps.append(rel("same", "C08.vector.operands_reusable", "b_add", "b_add_again"))
         progs.append({"tid": tids(), "inputs": {"v": v, "w": w, "u": u, "sq": sq}, "steps": steps})
     return progs
